@@ -167,6 +167,9 @@ func authenticator(r *http.Request, _ *http.Server) (*api.AuthToken, error) {
 
 type panicStruct struct{ A int }
 
+// panicReports receives what the module system reports on its error channel.
+var panicReports = make(chan *modules.ModuleError, 64)
+
 func doPanic(pv string) {
 	switch pv {
 	case "nil":
@@ -265,6 +268,12 @@ func register() error {
 		{Path: "verif/panic/struct", StructFunc: func(ar *api.Request) (interface{}, error) { doPanic(pv(ar)); return nil, nil }},
 		{Path: "verif/panic/record", RecordFunc: func(ar *api.Request) (record.Record, error) { doPanic(pv(ar)); return nil, nil }},
 		{Path: "verif/panic/handler", HandlerFunc: func(w http.ResponseWriter, r *http.Request) { doPanic(r.URL.Query().Get("pv")) }},
+		// writes its status line and part of the body first, panics afterwards
+		{Path: "verif/panic/handlerlate", HandlerFunc: func(w http.ResponseWriter, r *http.Request) {
+			w.WriteHeader(http.StatusOK)
+			_, _ = w.Write([]byte("partial"))
+			doPanic(r.URL.Query().Get("pv"))
+		}},
 	}
 	for _, e := range eps {
 		e.Name = e.Path
@@ -275,6 +284,13 @@ func register() error {
 	}
 	ph := func(w http.ResponseWriter, r *http.Request) { doPanic(r.URL.Query().Get("pv")) }
 	api.RegisterHandler("/verif/panic/wrap", api.WrapInAuthHandler(ph, api.PermitAnyone, api.PermitAnyone))
+	phLate := func(w http.ResponseWriter, r *http.Request) {
+		w.WriteHeader(http.StatusOK)
+		_, _ = w.Write([]byte("partial"))
+		doPanic(r.URL.Query().Get("pv"))
+	}
+	api.RegisterHandler("/verif/panic/wraplate", api.WrapInAuthHandler(phLate, api.PermitAnyone, api.PermitAnyone))
+	modules.SetErrorReportingChannel(panicReports)
 	return nil
 }
 
@@ -1003,10 +1019,28 @@ func run(tr *vio.Trace, n int, s *script) error {
 			tr.Flush()
 			o := obs{Tr: -9, Tw: -9}
 			path := "/api/v1/verif/panic/" + st.Kind
-			if st.Kind == "wrap" {
-				path = "/verif/panic/wrap"
+			if st.Kind == "wrap" || st.Kind == "wraplate" {
+				path = "/verif/panic/" + st.Kind
+			}
+			for len(panicReports) > 0 {
+				<-panicReports
 			}
 			h.doHTTP(st.M, path, "pv="+st.Pv, nil, &o, map[string]any{})
+			// the panic must be reported on the module error channel
+			reported := false
+			deadline := time.After(2 * time.Second)
+		waitReport:
+			for {
+				select {
+				case me := <-panicReports:
+					if me != nil && me.Severity == "panic" {
+						reported = true
+						break waitReport
+					}
+				case <-deadline:
+					break waitReport
+				}
+			}
 			// the server must still serve: probe a public handler
 			resetSlot()
 			p := obs{Tr: -9, Tw: -9}
@@ -1015,7 +1049,7 @@ func run(tr *vio.Trace, n int, s *script) error {
 			inv := slot.invoked
 			slot.Unlock()
 			tr.EmitRaw(map[string]any{"e": "apipanic", "h": n, "kind": st.Kind, "pv": st.Pv, "m": st.M,
-				"st": o.St, "err": o.Err + p.Err, "probe": p.St, "probeinv": inv})
+				"st": o.St, "err": o.Err + p.Err, "probe": p.St, "probeinv": inv, "reported": reported})
 		default:
 			return fmt.Errorf("unknown op %q", st.Op)
 		}
